@@ -208,7 +208,12 @@ func (s *Solver) Pop() {
 // flatten renders declarations and live assertions as a stand-alone script.
 func (s *Solver) flatten() string {
 	var b strings.Builder
+	seen := map[string]bool{}
 	for _, d := range s.decls {
+		if seen[d] {
+			continue // declared again in a later scope after a pop
+		}
+		seen[d] = true
 		b.WriteString(d)
 		b.WriteByte('\n')
 	}
@@ -312,6 +317,9 @@ func (s *Solver) Check() Result {
 		s.Stats.Unsat++
 	default:
 		s.Stats.Unknown++
+	}
+	if Global != nil && res != Unknown {
+		Global.offer(s, res)
 	}
 	return res
 }
